@@ -185,6 +185,26 @@ def check(ctx):
                     viacap = bd is not e and os_ and all(o[0] == "arg" and o[1] == 1 for o in os_) and "IntoSystem" in str(bd.local_ty(op_place(a)["l"]) if op_place(a) else "")
                     if direct or viacap:
                         sinks.append((bd.loc(b), lib.tail(mir.fn_name(fr), 2) if fr else "?"))
+        # ... and on every path: a path that returns without handing the given system to a registration of its own (e.g.
+        # because "the same function was registered before" and only the triggers are added to that registration)
+        # shares one system state between two registrations
+        sink_blocks = set()
+        for b, t, fr in e.iter_calls():
+            for a in t["args"]:
+                os_ = origins(e, a)
+                if os_ and all(o[0] == "arg" and o[1] == sa and len(o) == 2 for o in os_):
+                    sink_blocks.add(b)
+                for o in os_:
+                    if o[0] == "agg" and len(o) == 3:
+                        ag_ = e.blocks[o[1]]["stmts"][o[2]]["rv"].get("agg") or {}
+                        if ag_.get("kind") == "closure" and any(
+                                oo[0] == "arg" and oo[1] == sa and len(oo) == 2 for cap in ag_["ops"] for oo in origins(e, cap)):
+                            sink_blocks.add(b)
+        wp = lib.path_to_return_avoiding(e, [0], sorted(sink_blocks)) if sink_blocks else None
+        ctx.check(bool(sink_blocks) and wp is None, "C13.c", "%s:every-path-registers-the-given-system" % lib.fkey(e), "%s:%d" % (e.file, e.line),
+                  "every returning path hands the system argument to a registration (directly or through a closure that captures it)",
+                  "a path of %s returns without registering the system it was given: the triggers end up on another registration's system "
+                  "(shared Locals) or nowhere" % lib.fkey(e), lib.render_path(e, wp) if wp else None)
         bad = [s for s in sinks if not any(s[1].endswith(a) for a in ALLOWED)]
         ctx.check(bool(sinks) and not bad, "C13.c", "%s:system-flows-only-into-own-callback" % lib.fkey(e), "%s:%d" % (e.file, e.line),
                   "system argument flows to %s" % sorted({s[1] for s in sinks}),
